@@ -363,19 +363,12 @@ def r6(F, R):
             continue
         R.check(W.is_canonical_retry_predicate(rows), inst, kb, "left > 0 && err != NotFound",
                 f"retry predicate in {root.short} differs from `left > 0 && err != NotFound`: table (left>0, notfound, result) = {rows}")
-    # runner side: Retries::next_try = left.checked_sub(1).map(..)
-    nt = [b for b in F.crate_bodies() if b.impl and b.impl.get("self_adt") == "event::Retries" and not b.impl.get("trait")
-          and b.locals[0] == "std::option::Option<event::Retries>" and b.arg_count == 1]
-    if len(nt) != 1:
-        raise Unverifiable(f"Retries::next_try role: {len(nt)}")
-    b = nt[0]
-    cs = [(s, t) for s, t in b.calls(lambda t: callee_is(t, r"checked_sub$"))]
-    ok = len(cs) == 1 and const_int(cs[0][1]["args"][1]) == 1 and ("event::Retries", "left") in A.slice_back(b, [cs[0][1]["args"][0]]).fields
-    R.check(ok, "next-try-iff-left-positive", b, "next_try is Some iff left.checked_sub(1) is Some, i.e. left > 0",
-            "Retries::next_try no longer is `left.checked_sub(1)`; runner and writers would disagree on 'retry left'")
-    sl = A.slice_back(b, start_locals=[0])
-    R.check(sl.has_call(r"Option::<.*>::map$") and not sl.has_call(r"Option::<.*>::(or|or_else|unwrap_or.*)$"), "next-try-none-propagates", b,
-            "None of checked_sub propagates", "Retries::next_try can be Some although left == 0")
+    # runner side: Retries::next_try is Some exactly when a retry is left (decided on its path table: c05.next_try_semantics)
+    from . import c05
+    b, iff, fields_ok, why = c05.next_try_semantics(F)
+    R.check(iff, "next-try-iff-left-positive", b, "next_try is Some iff left > 0",
+            "Retries::next_try no longer is `Some iff left > 0`; runner and writers would disagree on 'retry left'" + (": " + why if why else ""))
+    R.check(iff, "next-try-none-propagates", b, "None when left == 0", "Retries::next_try can be Some although left == 0")
     R.floor(4)
 
 
